@@ -28,7 +28,10 @@ R = Registry(
         "handler of the pool's accounting code (pool/base.py, pool/impl.py) catches BaseException (CancelledError / "
         "GreenletExit are not Exceptions) and greenlet_spawn throws every BaseException of the awaited call into the "
         "greenlet; filtered views (scalars()/mappings()) of sync and async results are built from the object on which "
-        "unique()/columns() stored their state."
+        "unique()/columns() stored their state; greenlet_spawn hands every outcome of the awaited call (value or any exception) to the "
+        "greenlet, awaits the greenlet's answer next and is left only once the greenlet is dead (every handler around the await, not "
+        "just one); what a constructor of ext.asyncio hands on under a parameter's own name (AsyncSession -> Session(bind=, binds=), "
+        "async_sessionmaker's kw) is computed from that parameter whenever it is given, independently of the other parameters."
     ),
     not_decided="result equality of whole programs run both ways; cancellation at every await point (dynamic); driver adapters.",
 )
@@ -776,6 +779,267 @@ def r6(ctx):
     ctx.require(n_sites >= 4, f"only {n_sites} filtered-view construction sites found")
 
 
+# ---------------------------------------------------------------------- C29-R7 (greenlet_spawn drives the greenlet until it is dead) -- str2-o
+def _guard_atoms_at(g, node):
+    from ..astutil import test_atoms
+    out = set()
+    for t, pol in g.edge_guards(node):
+        out.update(test_atoms(t, pol))
+    return out
+
+
+@R.rule("C29-R7", floor=3, template="T-PATH",
+        desc="greenlet_spawn is the only thing that resumes the sync code suspended in await_(): whatever the awaited driver call "
+             "produces -- a value or ANY exception, a cancellation included -- is handed to the greenlet (switch / throw), the "
+             "greenlet's answer becomes the next thing to await, and the coroutine is left (return / raise) only once the greenlet "
+             "is dead; a handler that throws and then leaves abandons the sync side in the middle of its clean-up, which itself awaits "
+             "(invalidate -> terminate -> checkin)")
+def r7(ctx):
+    from ..astutil import ancestors, enclosing_try
+    gs = ctx.func(f"{CONC}::greenlet_spawn")
+    ctx.functions_analysed.add(gs.key)
+    g = ctx.cfg(gs)
+    pm = gs.module.parents()
+    awaits = [n for n in walk_local(gs.node) if isinstance(n, ast.Await)]
+    ctx.require(awaits and all(isinstance(a.value, ast.Name) for a in awaits), "greenlet_spawn does not await a local holding the greenlet's request (unknown idiom)")
+    seen = {}
+    for aw in awaits:
+        var = aw.value.id
+        loop = next((a for a in ancestors(pm, aw) if isinstance(a, (ast.While, ast.For, ast.AsyncFor))), None)
+        ctx.require(loop is not None, "the await of greenlet_spawn is not inside a driver loop")
+        heads = g.nodes_for(loop)
+        at = g.nodes_containing(aw)
+        ctx.require(heads and at, "greenlet_spawn: loop / await not found on the CFG")
+
+        def hands(attr):
+            """CFG nodes `var = <greenlet>.attr(...)`"""
+            out, recv = [], set()
+            for n in g.nodes:
+                st = n.stmt
+                if n.kind == "stmt" and isinstance(st, (ast.Assign, ast.AnnAssign)) and isinstance(getattr(st, "value", None), ast.Call) \
+                        and isinstance(st.value.func, ast.Attribute) and st.value.func.attr == attr:
+                    tg = st.targets if isinstance(st, ast.Assign) else [st.target]
+                    if any(isinstance(t, ast.Name) and t.id == var for t in tg):
+                        out.append(n.id)
+                        recv.add(dotted(st.value.func.value))
+            return out, recv
+        sw, r1_ = hands("switch")
+        th, r2_ = hands("throw")
+        recv = (r1_ | r2_) - {None}
+        ctx.require(len(recv) == 1, f"greenlet_spawn: `{var}` is not bound from <greenlet>.switch()/.throw() of one greenlet object ({sorted(map(str, recv))})")
+        gl = next(iter(recv))
+
+        def follow(a, b, lab):
+            # normal edges, plus the edge by which an explicit `raise` leaves
+            return lab != "exc" or (g.nodes[a].kind == "stmt" and isinstance(g.nodes[a].stmt, ast.Raise))
+        ends = list(heads) + [g.exit, g.raise_exit]
+        # (a) the awaited value goes back into the greenlet
+        w = g.must_pass(at, ends, sw, edge_ok=follow)
+        ctx.check(bool(sw) and w is None, gs.key + ":awaited-value-switched-in",
+                  f"after `await {var}` completes normally the loop can go on (or the coroutine end) without `{var} = {gl}.switch(<value>)`: the sync code "
+                  "waiting in await_() is never resumed with the driver's answer", f"value -> {var} = {gl}.switch(value) -> loop", gs.loc, w)
+        # (b) every handler around the await throws the exception into the greenlet and keeps driving
+        n_h = 0
+        for t, part in enclosing_try(pm, aw):
+            if part != "body" or not any(a is loop for a in ancestors(pm, t)):
+                continue
+            for h in t.handlers:
+                n_h += 1
+                width = "bare" if h.type is None else unparse(h.type)
+                base = f"{gs.key}:handler[{width}]:thrown-in-and-driven-on"
+                k = seen.get(base, 0)
+                seen[base] = k + 1
+                key = base if k == 0 else f"{base}#{k + 1}"
+                H = g.nodes_for(h)
+                ctx.require(H, f"greenlet_spawn: handler `{width}` not found on the CFG")
+                w = g.must_pass(H, ends, th, edge_ok=follow)
+                ctx.check(bool(th) and w is None, key,
+                          f"`except {width}` around `await {var}` can finish (fall through, re-raise or return) without `{var} = {gl}.throw(...)`: the exception "
+                          f"-- for this handler e.g. a task cancellation or timeout -- either never reaches the sync code, or is thrown in once and the greenlet's "
+                          f"answer (the next awaitable of its clean-up: rollback, terminate, checkin) is dropped, so the greenlet is abandoned half-way, the "
+                          f"connection record is never checked in and pool.checkedout() stays up",
+                          f"{var} = {gl}.throw(...) on every path, then back to the loop", f"{gs.module.path}:{h.lineno}", w)
+        ctx.require(n_h >= 1, "the await of greenlet_spawn has no exception handler inside the driver loop")
+        # (c) the coroutine is left only when the greenlet is dead
+        dead = f"{gl}.dead"
+        leaving = []
+        for n in sorted(g.reachable(at)):
+            nd = g.nodes[n]
+            if nd.kind == "stmt" and isinstance(nd.stmt, (ast.Return, ast.Raise)) and not nd.copy:
+                if (dead, True) not in _guard_atoms_at(g, n):
+                    leaving.append(f"line {nd.stmt.lineno}: `{unparse(nd.stmt)[:50]}`")
+        ctx.check(not leaving, gs.key + ":left-only-when-greenlet-dead",
+                  f"greenlet_spawn can return / raise while the greenlet may still be alive ({'; '.join(leaving)}; not dominated by `{dead}`): the sync function "
+                  "is abandoned in the middle of an await_() and whatever it holds (a checked-out connection record, an open transaction) is never released",
+                  f"every return / raise after the first await is dominated by `{dead}`", gs.loc)
+
+
+# ---------------------------------------------------------------------- C29-R8 (constructor parameters reach the sync object) -- str2-o
+CTOR_MODULES = (AENG, ASES, ASCO)
+
+
+def _reduce(e, facts, canon):
+    """`e` with conditional expressions / `a or b` / `a and b` decided by the scenario cut down to the operand that is the value."""
+    class T(ast.NodeTransformer):
+        def visit_IfExp(self, n):
+            self.generic_visit(n)
+            v = ev3(n.test, facts, canon)
+            return n if v is None else (n.body if v else n.orelse)
+
+        def visit_BoolOp(self, n):
+            self.generic_visit(n)
+            vals = list(n.values)
+            while len(vals) > 1:
+                v = ev3(vals[0], facts, canon)
+                if v is None:
+                    break
+                if isinstance(n.op, ast.Or):
+                    if v:
+                        return vals[0]
+                    vals = vals[1:]
+                else:
+                    if not v:
+                        return vals[0]
+                    vals = vals[1:]
+            return vals[0] if len(vals) == 1 else ast.BoolOp(op=n.op, values=vals)
+
+        def visit_Lambda(self, n):
+            return n
+    import copy
+    return T().visit(copy.deepcopy(e))
+
+
+def _carries(sc, fr, expr, node, param, facts, canon, depth=0):
+    """(True, '') when the value of `expr` at CFG node `node` is computed from parameter `param` on every scenario-consistent path;
+    else (False, description of a definition that is not)."""
+    r = _reduce(sc.resolve(expr, node), facts, canon)
+    if isinstance(r, ast.Constant):
+        return False, f"the constant `{unparse(r)}`"
+    if param in names_in(r):
+        return True, ""
+    if depth < 4:
+        for nm in sorted(names_in(r)):
+            if nm not in fr.defs or nm in fr.opaque:
+                continue
+            rd = sc.reaching(nm, node)
+            if not rd:
+                continue
+            bad = None
+            for d in sorted(rd, key=lambda x: -1 if x is None else x):
+                v = fr.defs[nm].get(d) if d is not None else None
+                if v is None:
+                    bad = f"`{nm}` unbound / deleted on one path"
+                    break
+                ok, why = _carries(sc, fr, v, d, param, facts, canon, depth + 1)
+                if not ok:
+                    bad = f"`{nm} = {unparse(v)[:40]}` (line {getattr(v, 'lineno', '?')}) still reaches it: {why}" if why.startswith("the constant") or not why else why
+                    break
+            if bad is None:
+                return True, ""
+            return False, bad
+    return False, f"`{unparse(r)[:60]}` does not read `{param}`"
+
+
+@R.rule("C29-R8", floor=5, template="T-FLOW",
+        desc="what a constructor of ext.asyncio hands on under a parameter's own name -- a keyword of the call that builds the proxied "
+             "sync object (AsyncSession -> Session(bind=, binds=)), an entry of the **kw it stores (async_sessionmaker) -- is computed "
+             "from that parameter whenever the parameter is given, independently of the other parameters (path-sensitive reaching "
+             "definitions per scenario); a parameter the sync constructor also has is handed on at all")
+def r8(ctx):
+    ix = ctx.index
+    from ..index import ClassInfo
+    n_inst = 0
+    for rel in CTOR_MODULES:
+        m = ix.module(rel)
+        for cls in sorted(ix._all_classes(m), key=lambda c: c.node.lineno):
+            init = cls.methods.get("__init__")
+            if init is None or init.type_only:
+                continue
+            a = init.node.args
+            params = [x.arg for x in a.posonlyargs + a.args + a.kwonlyargs if x.arg not in ("self", "cls")]
+            kwname = a.kwarg.arg if a.kwarg is not None else None
+            from ..astutil import func_defaults
+            defaults = func_defaults(init.node)
+            # sinks: keyword `p=<v>` of a call, `<dict>["p"] = <v>`
+            sinks = {}
+            for n in walk_local(init.node):
+                if isinstance(n, ast.Call):
+                    for k in n.keywords:
+                        if k.arg in params:
+                            sinks.setdefault(k.arg, []).append(("call", n, k.value))
+                elif isinstance(n, ast.Assign):
+                    for t in n.targets:
+                        if isinstance(t, ast.Subscript) and isinstance(t.value, ast.Name) and isinstance(t.slice, ast.Constant) and t.slice.value in params:
+                            sinks.setdefault(t.slice.value, []).append(("store", n, n.value))  # kw["p"] = ... / a local dict of arguments
+            # parameters that the constructor of the proxied class has too must be handed on
+            dropped = []
+            for n in walk_local(init.node):
+                if not (isinstance(n, ast.Call) and any(k.arg in params for k in n.keywords)):
+                    continue
+                tgt = None
+                d = dotted(n.func) or ""
+                if d.startswith("self.") and d.count(".") == 1:
+                    owner, vals = ix.class_attr_nodes(cls, d[5:])
+                    for v in vals:
+                        if owner is not None and isinstance(v, (ast.Name, ast.Attribute)):
+                            r = ix.resolve(owner.module, dotted(v))
+                            tgt = r if isinstance(r, ClassInfo) else tgt
+                elif d:
+                    r = ix.resolve(m, d)
+                    tgt = r if isinstance(r, ClassInfo) else None
+                if tgt is None:
+                    continue
+                ti = ix.resolve_method(tgt, "__init__")
+                if ti is None:
+                    continue
+                given = {k.arg for k in n.keywords}
+                for p_ in params:
+                    if p_ in ti.params and p_ not in given and p_ not in sinks:
+                        dropped.append((p_, tgt.name, n))
+            if not sinks and not dropped:
+                continue
+            ctx.functions_analysed.add(init.key)
+            g = ctx.cfg(init)
+            for p_, tname, call in dropped:
+                n_inst += 1
+                ctx.violation(f"{init.key}:param[{p_}]", f"{cls.name}.__init__ accepts `{p_}`, which {tname}.__init__ has too, but `{unparse(call.func)}(...)` is not given it: "
+                              f"the same program behaves differently through the async API", f"{m.path}:{call.lineno}")
+            for p_, sk in sorted(sinks.items()):
+                n_inst += 1
+                dflt = defaults.get(p_)
+                optional = isinstance(dflt, ast.Constant) and dflt.value is None
+                # "given": for a parameter that defaults to None, a value that is not None and truthy (an engine, a non-empty map)
+
+                def canon(txt, p_=p_):
+                    if txt == p_:
+                        return ("GIVEN", True)
+                    if txt == f"{p_} is None":
+                        return ("GIVEN", False)
+                    return None
+                facts = {"GIVEN": True} if optional else {}
+                fr = FlowResolver(g, init.node, canon)
+                sc = fr.scenario(**facts)
+                problems, notes = [], []
+                nodes = []
+                for kind, n, v in sk:
+                    at = [x for x in (g.nodes_containing(n) if kind == "call" else g.nodes_for(n)) if x in sc.live]
+                    nodes += at
+                    for x in at:
+                        ok, why = _carries(sc, fr, v, x, p_, facts, canon)
+                        what = f"`{p_}=` of `{unparse(n.func)[:50]}(...)`" if kind == "call" else f"`{unparse(n.targets[0])}`"
+                        if ok:
+                            notes.append(f"{what} <- {unparse(_reduce(sc.resolve(v, x), facts, canon))[:60]}")
+                        else:
+                            problems.append(f"when `{p_}` is given, {what} is `{unparse(v)[:40]}`, which is not computed from `{p_}` on every path ({why}): "
+                                            f"the value depends on the OTHER constructor arguments, the sync object is built without it and the same "
+                                            f"program has other database effects than through the sync API")
+                w = g.must_pass([g.entry], [g.exit], nodes, edge_ok=sc.edge_ok) if nodes else ["(no live hand-over site)"]
+                if w is not None:
+                    problems.append(f"when `{p_}` is given, a path through the constructor hands it on nowhere")
+                ctx.check(not problems, f"{init.key}:param[{p_}]", "; ".join(dict.fromkeys(problems)), "; ".join(dict.fromkeys(notes)), init.loc, w if problems else None)
+    ctx.require(n_inst >= 1, "no constructor of ext.asyncio hands a parameter on under its own name")
+
+
 # ---------------------------------------------------------------------- self-test battery
 R.mutant("async-commit-runs-rollback", AENG,
          sub("        await greenlet_spawn(self._proxied.commit)\n\n    async def rollback(self) -> None:\n        \"\"\"Roll back the transaction that is currently in progress.",
@@ -953,3 +1217,52 @@ R.mutant("benign-do-get-undo-in-finally-with-flag", POOL_IMPL,
          sub("            try:\n                return self._create_connection()\n" + _UNDO,
              "            created = False\n            try:\n                conn = self._create_connection()\n                created = True\n                return conn\n"
              "            finally:\n                if not created:\n                    self._dec_overflow()\n"), None)
+
+# ---------------------------------------------------------------------- round-2 seeds (str2-o): C29-R7 / C29-R8
+_GS_H = ("        except BaseException:\n            # this allows an exception to be raised within\n            # the moderated greenlet so that it can continue\n"
+         "            # its expected flow.\n            result = context.throw(*sys.exc_info())\n")
+_GS_ELSE = "        else:\n            result = context.switch(value)\n"
+R.mutant("seed3-greenlet-spawn-cancellation-thrown-in-then-reraised", CONC,
+         sub(_GS_H, "        except asyncio.CancelledError:\n            context.throw(*sys.exc_info())\n            raise\n" + _GS_H), "C29-R7")
+R.mutant("greenlet-spawn-throws-but-drops-the-greenlets-answer", CONC, sub(_GS_H, "        except BaseException:\n            context.throw(*sys.exc_info())\n"), "C29-R7")
+R.mutant("greenlet-spawn-gives-up-after-throwing-a-cancellation", CONC,
+         sub(_GS_H, "        except BaseException as err:\n            result = context.throw(*sys.exc_info())\n            if isinstance(err, asyncio.CancelledError):\n                raise\n"), "C29-R7")
+R.mutant("greenlet-spawn-leaves-the-loop-after-an-exception", CONC, sub(_GS_H, _GS_H + "            break\n"), "C29-R7")
+R.mutant("greenlet-spawn-awaited-value-not-switched-in", CONC, sub(_GS_H + _GS_ELSE, _GS_H + "        else:\n            context.switch(value)\n"), "C29-R7")
+R.mutant("benign-greenlet-spawn-handler-split-by-exception-class", CONC,
+         sub(_GS_H, "        except asyncio.CancelledError:\n            result = context.throw(*sys.exc_info())\n" + _GS_H), None)
+R.mutant("benign-greenlet-spawn-handler-names-the-exception", CONC,
+         sub(_GS_H, "        except BaseException as err:\n            result = context.throw(type(err), err, err.__traceback__)\n"), None)
+R.mutant("benign-greenlet-spawn-exc-info-in-local", CONC,
+         sub(_GS_H, "        except BaseException:\n            exc_info = sys.exc_info()\n            result = context.throw(*exc_info)\n"), None)
+R.mutant("benign-greenlet-spawn-loop-with-explicit-dead-test", CONC,
+         sub("    while not context.dead:\n        switch_occurred = True\n", "    while True:\n        if context.dead:\n            break\n        switch_occurred = True\n"), None)
+_AS_BINDS = ("        if binds:\n            self.binds = binds\n            sync_binds = {\n                key: engine._get_sync_engine_or_connection(b)\n"
+             "                for key, b in binds.items()\n            }\n")
+_AS_CALL = "            self.sync_session_class(bind=sync_bind, binds=sync_binds, **kw)\n"
+R.mutant("seed4-async-session-binds-only-without-bind", ASES, sub("\n" + _AS_BINDS, _AS_BINDS.replace("        if binds:", "        elif binds:")), "C29-R8")
+R.mutant("async-session-binds-ignored-when-bind-given", ASES, sub(_AS_BINDS, _AS_BINDS.replace("        if binds:", "        if binds and not bind:")), "C29-R8")
+R.mutant("async-session-ctor-does-not-pass-binds", ASES, sub(_AS_CALL, "            self.sync_session_class(bind=sync_bind, **kw)\n"), "C29-R8")
+R.mutant("async-session-ctor-binds-fed-from-bind", ASES, sub(_AS_CALL, "            self.sync_session_class(bind=sync_bind, binds=sync_bind, **kw)\n"), "C29-R8")
+R.mutant("async-sessionmaker-info-kept-only-without-bind", ASES,
+         sub("        if info is not None:\n            kw[\"info\"] = info\n        self.kw = kw\n        self.class_ = class_\n",
+             "        if info is not None and bind is None:\n            kw[\"info\"] = info\n        self.kw = kw\n        self.class_ = class_\n"), "C29-R8")
+R.mutant("async-sessionmaker-expire-on-commit-constant", ASES,
+         sub("        kw[\"expire_on_commit\"] = expire_on_commit\n        if info is not None:\n            kw[\"info\"] = info\n        self.kw = kw\n        self.class_ = class_\n",
+             "        kw[\"expire_on_commit\"] = True\n        if info is not None:\n            kw[\"info\"] = info\n        self.kw = kw\n        self.class_ = class_\n"), "C29-R8")
+R.mutant("benign-async-session-binds-as-conditional-expression", ASES,
+         sub(_AS_BINDS, "        if binds:\n            self.binds = binds\n        sync_binds = (\n            {\n                key: engine._get_sync_engine_or_connection(b)\n"
+                        "                for key, b in binds.items()\n            }\n            if binds\n            else None\n        )\n"), None)
+R.mutant("benign-async-session-binds-branch-inverted", ASES,
+         sub(_AS_BINDS, "        if not binds:\n            pass\n        else:\n            self.binds = binds\n            sync_binds = {\n                key: engine._get_sync_engine_or_connection(b)\n"
+                        "                for key, b in binds.items()\n            }\n"), None)
+R.mutant("benign-async-session-binds-translated-by-helper", ASES,
+         chain(sub(_AS_BINDS, "        if binds:\n            self.binds = binds\n            sync_binds = self._sync_binds_of(binds)\n"),
+               sub("    sync_session_class: Type[Session] = Session\n",
+                   "    @staticmethod\n    def _sync_binds_of(binds: Any) -> Any:\n        return {\n            key: engine._get_sync_engine_or_connection(b)\n            for key, b in binds.items()\n        }\n\n"
+                   "    sync_session_class: Type[Session] = Session\n")), None)
+R.mutant("benign-async-session-arguments-collected-in-a-dict", ASES,
+         sub(_AS_CALL, "            self.sync_session_class(**dict(kw, bind=sync_bind, binds=sync_binds))\n"), None)
+R.mutant("benign-async-sessionmaker-kw-update-call", ASES,
+         sub("        kw[\"bind\"] = bind\n        kw[\"autoflush\"] = autoflush\n        kw[\"expire_on_commit\"] = expire_on_commit\n        if info is not None:\n            kw[\"info\"] = info\n        self.kw = kw\n        self.class_ = class_\n",
+             "        kw.update(\n            bind=bind, autoflush=autoflush, expire_on_commit=expire_on_commit\n        )\n        if info is None:\n            pass\n        else:\n            kw[\"info\"] = info\n        self.kw = kw\n        self.class_ = class_\n"), None)
